@@ -4,7 +4,8 @@
                    tables EXTRACTED FROM THE CODE, a FIFO network with loss / duplication / delay, a chain, a Lightning
                    channel with HTLCs that can be held, an environment scheduler); spec/DuoProps.tla - D1..D5
   TLC, design    : DuoMC checks P_D1..P_D5 on every schedule of the bounded configurations (both swap types x both chains x
-                   who initiates; network faults, timeouts, retransmission, restarts, one failing service call, one crash)
+                   who initiates; loss / delay of every message, duplication of the retransmitted opening_tx_broadcasted,
+                   timeouts, retransmission, restarts, one failing service call, one crash, one adversarial duplicate)
                    and exports the shortest schedule per coverage key
   spec -> code   : harness/duo (cmd/duo) executes every schedule, their fair closures (network heals / stays dead) and
                    VERIF_SEED random walks on two real swap.SwapService instances wired together
@@ -95,10 +96,12 @@ def tla_step(st):
 FAMILIES = {
     # budgets of one behaviour: steps, restarts, duplications, drops, ten-minute ticks, retransmission ticks, block steps, failing calls, crashes
     "quick": dict(
-        net=dict(maxsteps=7, restarts=0, dups=1, drops=1, ticks=1, retx=1, blocks=2, faults=0, crashes=0, close=True),
-        restart=dict(maxsteps=6, restarts=1, dups=0, drops=1, ticks=1, retx=0, blocks=2, faults=0, crashes=0, close=True),
+        net=dict(maxsteps=8, restarts=0, dups=1, drops=1, ticks=1, retx=1, blocks=2, faults=0, crashes=0, close=True),
+        restart=dict(maxsteps=7, restarts=1, dups=0, drops=1, ticks=1, retx=0, blocks=2, faults=0, crashes=0, close=True),
         fault=dict(maxsteps=6, restarts=0, dups=0, drops=0, ticks=1, retx=0, blocks=2, faults=1, crashes=0, close=True),
         crash=dict(maxsteps=6, restarts=0, dups=0, drops=0, ticks=0, retx=0, blocks=2, faults=0, crashes=1, close=True),
+        # one adversarial duplicate (a node sends a message twice; e.g. the request: refused with cancel): D1 / D3 / D4 only
+        adv=dict(maxsteps=6, restarts=0, dups=0, advdups=1, drops=0, ticks=0, retx=0, blocks=2, faults=0, crashes=0, close=True),
     ),
     "thorough": dict(
         net=dict(maxsteps=9, restarts=0, dups=1, drops=2, ticks=2, retx=1, blocks=3, faults=0, crashes=0, close=True),
@@ -106,6 +109,7 @@ FAMILIES = {
         fault=dict(maxsteps=7, restarts=1, dups=0, drops=1, ticks=1, retx=0, blocks=3, faults=1, crashes=0, close=True),
         crash=dict(maxsteps=7, restarts=1, dups=0, drops=0, ticks=1, retx=0, blocks=3, faults=0, crashes=1, close=True),
         crashfault=dict(maxsteps=6, restarts=0, dups=0, drops=0, ticks=0, retx=0, blocks=2, faults=1, crashes=1, close=True),
+        adv=dict(maxsteps=7, restarts=1, dups=0, advdups=1, drops=1, ticks=1, retx=0, blocks=3, faults=0, crashes=0, close=True),
     ),
 }
 
@@ -116,9 +120,10 @@ def configs(tier):
         for typ in ("out", "in"):
             for chain in ("btc", "lbtc"):
                 for init in ("A", "B"):
-                    if tier == "quick" and init == "B" and fam in ("fault", "crash"):
+                    if tier == "quick" and init == "B" and fam in ("fault", "crash", "adv"):
                         continue   # the nodes are symmetric: B initiates in the network and restart families only
-                    c = dict(b)
+                    c = dict(advdups=0)
+                    c.update(b)
                     c.update(name="%s_%s_%s_%s" % (typ, chain, init, fam), typ=typ, chain=chain, init=init, fam=fam)
                     out.append(c)
     only = os.environ.get("VERIF_DUO_ONLY")
@@ -128,16 +133,16 @@ def configs(tier):
 
 
 def weight(c):
-    w = dict(net=3.0, restart=2.0, fault=6.0, crash=8.0, crashfault=20.0)[c["fam"]]
+    w = dict(net=3.0, restart=2.0, fault=6.0, crash=8.0, crashfault=20.0, adv=2.0)[c["fam"]]
     return w * (1.3 if c["typ"] == "out" else 1.0)
 
 
 def write_cfgs(path, cfgs, refuse_with_cancel=True):
     rows = []
     for c in cfgs:
-        rows.append('  [name |-> "%s", typ |-> "%s", chain |-> "%s", init |-> "%s", maxsteps |-> %d, restarts |-> %d, dups |-> %d, drops |-> %d, ticks |-> %d, '
+        rows.append('  [name |-> "%s", typ |-> "%s", chain |-> "%s", init |-> "%s", maxsteps |-> %d, restarts |-> %d, dups |-> %d, advdups |-> %d, drops |-> %d, ticks |-> %d, '
                     'retx |-> %d, blocks |-> %d, faults |-> %d, crashes |-> %d, close |-> %s]' % (
-                        c["name"], c["typ"], c["chain"], c["init"], c["maxsteps"], c["restarts"], c["dups"], c["drops"], c["ticks"], c["retx"], c["blocks"],
+                        c["name"], c["typ"], c["chain"], c["init"], c["maxsteps"], c["restarts"], c["dups"], c["advdups"], c["drops"], c["ticks"], c["retx"], c["blocks"],
                         c["faults"], c["crashes"], "TRUE" if c["close"] else "FALSE"))
     with open(path, "w") as f:
         f.write("------------------------------ MODULE DuoCfgs ------------------------------\n")
@@ -207,9 +212,9 @@ INVARIANTS = ["P_D1_Atomicity", "P_D2_Termination", "P_D3_Agreement", "P_D4_NoEa
 
 
 def probe(binp, wd):
-    """Behaviour probe on the real code: is the duplicate of the request that created a swap answered with cancel?"""
+    """Behaviour probe on the real code: is a request sent twice (adversarial duplicate, step advdup) answered with cancel?"""
     sp, tr = os.path.join(wd, "probe.ndjson"), os.path.join(wd, "probe-trace.ndjson")
-    open(sp, "w").write(json.dumps(dict(name="probe", cfg=harness_cfg("btc"), steps=[dict(a="init", n="A", typ="out"), dict(a="dup", d="AB"), dict(a="deliver", d="AB")])) + "\n")
+    open(sp, "w").write(json.dumps(dict(name="probe", cfg=harness_cfg("btc"), steps=[dict(a="init", n="A", typ="out"), dict(a="advdup", d="AB"), dict(a="deliver", d="AB")])) + "\n")
     vp.run([binp, "-schedules", sp, "-out", tr, "-workers", "1"], timeout=120)
     last = [json.loads(ln) for ln in open(tr) if '"ev":"step"' in ln][-1]
     rc = [e for e in last["evs"] if e["e"] == "recv"]
@@ -290,8 +295,8 @@ def run_all(tier):
     key = "%s-%s-%d%s" % (tree_hash(), tier, vp.seed(), ("-" + hashlib.sha256(os.environ["VERIF_DUO_ONLY"].encode()).hexdigest()[:8]) if os.environ.get("VERIF_DUO_ONLY") else "")
     if key in _memo:
         return _memo[key]
-    cdir = os.path.join(vp.WORKROOT, "cache-duo")
-    cfile = os.path.join(cdir, key + ".json")
+    cdir = os.environ.get("VERIF_CACHE_DIR") or os.path.join(vp.WORKROOT, "cache-swapfsm")
+    cfile = os.path.join(cdir, "duo-" + key + ".json")
     if os.path.exists(cfile) and not os.environ.get("VERIF_NOCACHE"):
         vp.log("duo: reusing result of this tree/spec/tier/seed:", key)
         _memo[key] = json.load(open(cfile))
@@ -403,10 +408,13 @@ def run_all(tier):
                    samples=[dict(name=s["name"], steps=s["steps"][:12]) for s in random.Random(vp.seed()).sample(scheds, min(3, len(scheds)))],
                    wall=round(time.time() - t0, 1))
         os.makedirs(cdir, exist_ok=True)
-        for old in glob.glob(os.path.join(cdir, "*.json")):
+        for old in glob.glob(os.path.join(cdir, "duo-*.json")):
             if time.time() - os.path.getmtime(old) > 6 * 3600:
                 os.remove(old)
-        json.dump(out, open(cfile, "w"))
+        tmpf = "%s.tmp-%d" % (cfile, os.getpid())
+        with open(tmpf, "w") as f:
+            json.dump(out, f)
+        os.replace(tmpf, cfile)
         _memo[key] = out
         return out
     finally:
@@ -422,7 +430,7 @@ ASSUMPTIONS = ["simulated chain / Lightning layer / wallets / network around two
 def _verdicts(r, prop):
     ver = vp.Verdicts(prop)
     for x in r["viol"]:
-        if x["sig"].startswith(prop + "|"):
+        if x["sig"].startswith(prop + "|duo|"):
             rp = vp.save_replay(prop, "duo-%s.json" % vp.sig_id(x["sig"]), dict(signature=x["sig"], d_signature=x["dsig"], schedule=x["schedule"],
                                 how="harness/bin/duo -schedules <this schedule as one NDJSON line> -out trace.ndjson; the trace is judged by spec/DuoTrace.tla"))
             ver.add(x["sig"], rp)
